@@ -67,8 +67,12 @@ class RG:
                 return "(%s (%% %s 9) %s)" % (op, e(), r.choice(["1", "2", "3"]))
             n = r.randint(2, 3) if op not in ("%", "^") else 2
             return "(%s %s)" % (op, " ".join(e() for _ in range(n)))
-        if k < 0.26:
+        if k < 0.23:
             return "(%s %s)" % (r.choice(["-", "+", "not", "bnot"]), e())
+        if k < 0.26:
+            # negative literals in operand positions that bind tighter than unary minus
+            neg = r.choice(["-1", "-2", "-5", "-1.5", "-2j"])
+            return r.choice(["(** %s 2)", "(.conjugate %s)", "(. %s real)", "(get [1 2 3] %s)", "(abs %s)", "(** 2 %s)"]) % neg
         if k < 0.34:
             op = r.choice(["=", "<", "<=", "!=", ">", "is", "in", "not-in", "is-not"])
             if op in ("in", "not-in"):
